@@ -110,19 +110,23 @@ class _CutIter:
         if self.phase == 0:
             self.phase = 1
             self.state = cut.select_state(self.frame.f_locals)
-            if not self.state:
+            if not self.state and not getattr(cut, "stateless", False):
                 ctx.unsupported_here("loop cut %s: no loop-carried state found" % cut.name)
             snap = _snapshot(self.state)
             n = cut.length_of(snap)
             entry = self.entry
             cut.entry = entry
-            ctx.loop_obligations.append(("establish" + (str(entry) if cut.entries > 1 or entry else ""), cut.name, n, lambda i, snap=snap: self._inv(snap, 0, i)))
+            if self.state:
+                ctx.loop_obligations.append(("establish" + (str(entry) if cut.entries > 1 or entry else ""), cut.name, n, lambda i, snap=snap: self._inv(snap, 0, i)))
             if ctx.fork(alg.eq(seq.K, 0)):
                 self.phase = 2
                 raise StopIteration
             j = ctx.fresh("j_" + cut.name, z3.IntSort())
             ctx.assume(alg.and_(alg.le(0, j), alg.lt(j, seq.K)))
             self.j = j
+            if not hasattr(ctx, "ghost"):
+                ctx.ghost = {}
+            ctx.ghost.setdefault("cut_index", {})[cut.name] = j
             _havoc(ctx, self.state, cut, j, "pre", self._inv)
             return seq.at(j)
         if self.phase == 1:
@@ -130,7 +134,8 @@ class _CutIter:
             snap = _snapshot(self.state)
             n = cut.length_of(snap)
             j1 = alg.add(self.j, 1)
-            ctx.loop_obligations.append(("preserve" + (str(self.entry) if self.entry else ""), cut.name, n, lambda i, snap=snap: self._inv(snap, j1, i)))
+            if self.state:
+                ctx.loop_obligations.append(("preserve" + (str(self.entry) if self.entry else ""), cut.name, n, lambda i, snap=snap: self._inv(snap, j1, i)))
             _havoc(ctx, self.state, cut, seq.K, "post", self._inv)
             raise StopIteration
         raise StopIteration
